@@ -166,9 +166,9 @@ Definition k_ok (c : kcase) : bool :=
       agree (paretofront F64 nval ncol orient data (sentZ nval)) crashed rc
         (fun s => zs_same s isdom)
   | KAdd1month date crashed rc out =>
-      agree (add1month date) crashed rc (fun s => zs_same s out)
+      agree (add1month true date) crashed rc (fun s => zs_same s out)
   | KAdd1day date crashed rc out =>
-      agree (add1day date) crashed rc (fun s => zs_same s out)
+      agree (add1day true date) crashed rc (fun s => zs_same s out)
   | KCompare d1 d2 crashed rc =>
       match comparedates d1 d2 with Ret c _ => negb crashed && (c =? rc) | _ => false end
   | KGetdate day crashed rc out =>
